@@ -2720,7 +2720,13 @@ class PGPKey(Armorable, ParentRef, PGPObject):
                     pgpobj = PGPUID() | pkt
 
                 else:  # pragma: no cover
-                    break
+                    # not part of a key (a signature in front of the first key, a marker packet, ...): it is set
+                    # aside with what was grouped with it, and parsing goes on with the next packet. (Leaving this
+                    # loop to start it again would lose a packet: groupby has already taken the one after the group.)
+                    warnings.warn("Warning: Orphaned packet detected! {:s}".format(repr(pkt)), stacklevel=2)
+                    orphaned.append(pkt)
+                    orphaned.extend(group)
+                    continue
 
                 # add signatures to whatever we got
                 [ operator.ior(pgpobj, PGPSignature() | sig) for sig in group if not isinstance(sig, Opaque) ]
